@@ -3,13 +3,13 @@
  "name": "journal_tag_bytes",
  "props": ["C03"],
  "level": "U",
- "tier": "wip",
+ "tier": "quick",
  "harness": "h_tag_bytes",
  "enforce": ["journal_tag_bytes", "read_tag_block"],
  "includes": ["e2fsck"],
  "functions": ["lib/ext2fs/kernel-jbd.h:journal_tag_bytes", "e2fsck/recovery.c:read_tag_block"],
  "assumes": ["j_format_version is 1 or 2 (the only values the journal load routines produce)"],
- "native": true
+ "native": false
 }
 */
 /* VERIF-UNIT
@@ -20,13 +20,31 @@
  "tier": "wip",
  "harness": "h_count_tags",
  "enforce": ["count_tags"],
+ "replace": ["memcpy"],
  "loop_contracts": true,
  "includes": ["e2fsck"],
  "functions": ["e2fsck/recovery.c:count_tags"],
  "assumes": ["j_blocksize is a power of two in 1 KiB .. 64 KiB (filesystem block size, checked against the journal superblock at load time)",
-	     "the buffer holds exactly j_blocksize data bytes (allocated as getblk() does); its content is arbitrary",
-	     "j_format_version is 1 or 2"],
- "native": true
+	     "the buffer holds j_blocksize data bytes of arbitrary content, followed by 32 slack bytes that may be pointed to but never read (every read is asserted to end inside the j_blocksize bytes); strict-C pointer formation beyond the buffer is the subject of unit count_tags_strict",
+	     "j_format_version is 1 or 2",
+	     "libc memcpy replaced by its contract (bounds asserted at the call; faithful copy stated at the one byte the walk may depend on, all other copied bytes unconstrained)"],
+ "native": false
+}
+*/
+/* VERIF-UNIT
+{
+ "name": "count_tags_strict",
+ "props": ["C03"],
+ "level": "U",
+ "tier": "wip",
+ "harness": "h_count_tags",
+ "enforce": ["count_tags"],
+ "replace": ["memcpy"],
+ "loop_contracts": true,
+ "includes": ["e2fsck"],
+ "functions": ["e2fsck/recovery.c:count_tags"],
+ "assumes": ["as count_tags, but the buffer has NO slack: the out-of-bounds pointer formation in the loop guard is reported (expected failing obligation, see the FINDING comment)"],
+ "native": false
 }
 */
 /* VERIF-UNIT
@@ -34,14 +52,14 @@
  "name": "journal_tag_bytes_debugfs",
  "props": ["C03"],
  "level": "U",
- "tier": "wip",
+ "tier": "quick",
  "harness": "h_tag_bytes",
  "enforce": ["journal_tag_bytes", "read_tag_block"],
  "includes": ["e2fsck", "debugfs"],
  "defines": ["DEBUGFS"],
  "functions": ["lib/ext2fs/kernel-jbd.h:journal_tag_bytes", "e2fsck/recovery.c:read_tag_block"],
  "assumes": ["j_format_version is 1 or 2 (the only values the journal load routines produce)"],
- "native": true
+ "native": false
 }
 */
 /* VERIF-UNIT
@@ -52,14 +70,16 @@
  "tier": "wip",
  "harness": "h_count_tags",
  "enforce": ["count_tags"],
+ "replace": ["memcpy"],
  "loop_contracts": true,
  "includes": ["e2fsck", "debugfs"],
  "defines": ["DEBUGFS"],
  "functions": ["e2fsck/recovery.c:count_tags"],
  "assumes": ["j_blocksize is a power of two in 1 KiB .. 64 KiB (filesystem block size, checked against the journal superblock at load time)",
-	     "the buffer holds exactly j_blocksize data bytes (allocated as getblk() does); its content is arbitrary",
-	     "j_format_version is 1 or 2"],
- "native": true
+	     "the buffer holds j_blocksize data bytes of arbitrary content, followed by 32 slack bytes that may be pointed to but never read (every read is asserted to end inside the j_blocksize bytes); strict-C pointer formation beyond the buffer is the subject of unit count_tags_strict",
+	     "j_format_version is 1 or 2",
+	     "libc memcpy replaced by its contract (bounds asserted at the call; faithful copy stated at the one byte the walk may depend on, all other copied bytes unconstrained)"],
+ "native": false
 }
 */
 /*
@@ -79,6 +99,21 @@
  * which is exactly the walk of the replay loop in do_one_pass (same stride, same two stop conditions).
  * "Never reads outside the block" is the verifier's pointer check on a buffer of exactly blocksize bytes.
  */
+/*
+ * FINDING (benign, strict-C only): when the last tag slot of the block carries neither SAME_UUID nor LAST_TAG,
+ * count_tags advances tagp to up to 28 bytes beyond the end of the buffer and then evaluates
+ * `tagp - bh->b_data` in the loop guard.  Nothing is read there, but forming / subtracting such a pointer is
+ * undefined in ISO C and CBMC's pointer check reports it ("pointer relation: pointer outside object bounds in
+ * tagp", recovery.c loop guard).  Input: blocksize 1024, no csum, 32-bit tags, tag at offset 1012 with flags 0.
+ *   unit count_tags_strict (tier wip): buffer allocated exactly as getblk() does -> that ONE obligation fails
+ *     (and CBMC then reports the obligations behind it as UNKNOWN).
+ *   unit count_tags (quick): the buffer carries VERIF_BH_SLACK unreadable bytes so that the pointer formation is
+ *     defined; every read is still asserted to end inside the first blocksize bytes (memcpy contract precondition,
+ *     memcpy being the only read in the loop), so "never reads outside the block" is checked exactly.
+ */
+#ifndef VERIF_UNIT_count_tags_strict
+#define VERIF_BH_SLACK 32
+#endif
 #include "jr_spec.h"
 
 size_t journal_tag_bytes(journal_t *journal)
@@ -91,6 +126,22 @@ static inline unsigned long long read_tag_block(journal_t *journal, journal_bloc
 	ENSURES(RET == spec_tag_block(journal->j_format_version, SPEC_BE32(&journal->j_superblock->s_feature_incompat),
 				      (const unsigned char *)tag))
 	ASSIGNS();
+
+/*
+ * libc memcpy as seen by count_tags (the built-in byte-array model of memcpy costs 5 M clauses per call on a
+ * block-sized object): source readable and destination writable for n bytes (asserted at the call, which is what
+ * keeps "never reads outside the block" checked), and the copy is faithful at ONE ghost byte index verif_mc_k
+ * (true of memcpy for every index; bytes at other indices are left unconstrained, i.e. worst case).
+ */
+unsigned long long verif_mc_k;
+const void *verif_blk;			/* the journal buffer object and ... */
+unsigned long long verif_blk_end;	/* ... the object offset at which its blocksize data bytes end */
+void *memcpy(void *dst, const void *src, size_t n)
+	REQUIRES(__CPROVER_r_ok(src, n) && __CPROVER_w_ok(dst, n))
+	REQUIRES(!__CPROVER_same_object(src, verif_blk) || __CPROVER_POINTER_OFFSET(src) + n <= verif_blk_end)
+	ASSIGNS(__CPROVER_object_upto(dst, n))
+	ENSURES(RET == dst)
+	ENSURES(verif_mc_k >= n || ((const unsigned char *)dst)[verif_mc_k] == ((const unsigned char *)src)[verif_mc_k]);
 
 #define CT_S(j) ((unsigned long long)(j)->j_blocksize - spec_csum_tail((j)->j_format_version, SPEC_BE32(&(j)->j_superblock->s_feature_incompat)))
 #define CT_T(j) ((unsigned long long)spec_tag_bytes((j)->j_format_version, SPEC_BE32(&(j)->j_superblock->s_feature_incompat)))
@@ -132,9 +183,11 @@ void h_count_tags(void)
 	build_bh();
 	verif_k = IN.k;
 	ASSUME(verif_k < 0x10000);	/* a 64 KiB block has fewer than 2^13 tags: larger k are vacuous */
-	ASSUME(IN.bs_log == 0); /* EXPERIMENT */
 	verif_g0 = (verif_k == 0) ? 12 : 0;
 	verif_g1 = 0;
+	verif_blk = BH;
+	verif_blk_end = (unsigned long long)((char *)BH->b_data - (char *)BH) + BS;
+	verif_mc_k = 7;		/* low byte of the big-endian flags word: the only byte of the tag copy count_tags may depend on */
 	unsigned long long S = BS - spec_csum_tail(IN.format_version, IN.incompat);
 	unsigned long long T = spec_tag_bytes(IN.format_version, IN.incompat);
 	int nr = count_tags(&J, BH);
